@@ -20,6 +20,7 @@ type call struct {
 	kind int
 	a    string
 	n    int
+	g    int // the goroutine that issues the call
 }
 
 func xs(x uint64) uint64 {
@@ -83,6 +84,24 @@ func do(c call, dir string) string {
 		}
 		sortStrings(out)
 		return strings.Join(out, "|")
+	case 6:
+		// a directory of the goroutine's own; every other one holds a link whose target is missing,
+		// so the scan fails and reports an error naming this directory and no other
+		own := fmt.Sprintf("%s/own%02d", ownRoot, c.g)
+		qs, err := fileseq.FindSequencesOnDisk(own, fileseq.SingleFiles)
+		if err != nil {
+			return "ERR " + err.Error()
+		}
+		var out []string
+		for _, q := range qs {
+			out = append(out, q.String())
+		}
+		sortStrings(out)
+		if c.n%3 == 0 {
+			q, err := fileseq.FindSequenceOnDisk(own + "/img.#.exr")
+			out = append(out, fmt.Sprint(q, err))
+		}
+		return strings.Join(out, "|")
 	case 4:
 		return fileseq.FramesToFrameRange([]int{1, 2, 3, 10, 8, 6, c.n}, c.n%2 == 0, c.n%4) + fileseq.PadFrameRange(c.a, 4+(c.n%6)*9) + fileseq.PaddingChars(c.n%9)
 	default:
@@ -92,6 +111,16 @@ func do(c call, dir string) string {
 		}
 		return q.String() + fmt.Sprint(fileseq.IsFrameRange(c.a))
 	}
+}
+
+// ownRoot holds one scratch directory per goroutine (removed before the process ends)
+var ownRoot string
+
+func exit(code int) {
+	if ownRoot != "" {
+		os.RemoveAll(ownRoot)
+	}
+	os.Exit(code)
 }
 
 func sortStrings(a []string) {
@@ -107,13 +136,25 @@ func main() {
 	g, _ := strconv.Atoi(os.Args[2])
 	n, _ := strconv.Atoi(os.Args[3])
 	dir := os.Args[4]
+	ownRoot, _ = os.MkdirTemp("/var/tmp", "racedrv")
+	for i := 0; i < g; i++ {
+		own := fmt.Sprintf("%s/own%02d", ownRoot, i)
+		os.MkdirAll(own, 0755)
+		for f := 1; f <= 3; f++ {
+			os.WriteFile(fmt.Sprintf("%s/img.%04d.exr", own, f), nil, 0644)
+		}
+		if i%2 == 0 {
+			os.Remove(own + "/img.0004.exr")
+			os.Symlink(own+"/missing-target.exr", own+"/img.0004.exr")
+		}
+	}
 	plans := make([][]call, g)
 	x := uint64(seed)*2654435761 | 1
 	for i := range plans {
 		for j := 0; j < n; j++ {
 			x = xs(x)
-			k := int(x>>7) % 6
-			c := call{kind: k, n: int(x>>20) % 97}
+			k := int(x>>7) % 7
+			c := call{kind: k, n: int(x>>20) % 97, g: i}
 			switch k {
 			case 0, 4, 5:
 				c.a = ranges_[int(x>>30)%len(ranges_)]
@@ -151,7 +192,7 @@ func main() {
 	}
 	if bad > 0 {
 		fmt.Printf("MISMATCHES %d\n", bad)
-		os.Exit(3)
+		exit(3)
 	}
 	// values DERIVED from one another (Normalize, Invert, Copy, Split) are distinct values: one
 	// goroutine queries the source, another the derived one, both untouched until then
@@ -189,8 +230,9 @@ func main() {
 		want := [6]string{probeFS(a2), probeFS(b2), probeFS(c2), probeQ(q2), probeQ(qc2), probeQ(qp2)}
 		if got != want {
 			fmt.Printf("MISMATCH derived values of %q: concurrent %q sequential %q\n", rs, got, want)
-			os.Exit(3)
+			exit(3)
 		}
 	}
 	fmt.Println("OK")
+	exit(0)
 }
